@@ -22,11 +22,11 @@ fn seq<T: Copy>(alpha: &[T], mut i: u64) -> Vec<T> {
 }
 fn seq_count(n: u64, maxlen: u32) -> u64 { (0..=maxlen).map(|l| n.pow(l)).sum() }
 
-struct Case { trap: Trap, word: u16, r0_low: u8, string_words: Vec<u16>, expected_out: Vec<u8>, kb: Vec<u8>, regset: usize, cc: usize, real: bool }
+struct Case { trap: Trap, word: u16, r0_low: u8, string_words: Vec<u16>, expected_out: Vec<u8>, kb: Vec<u8>, regset: usize, cc: usize, real: bool, ignore_priv: bool }
 
 fn run_case(c: &Case) -> Result<(), (String, String)> {
     let mut m = Machine::user();
-    m.real_traps = c.real;
+    m.real_traps = c.real; m.ignore_priv = c.ignore_priv;
     m.regs = REGSETS[c.regset];
     if matches!(c.trap, Trap::Out) { m.regs[0] = (m.regs[1] & 0xFF00) | c.r0_low as u16; }
     m.psr = CCS[c.cc];
@@ -34,7 +34,7 @@ fn run_case(c: &Case) -> Result<(), (String, String)> {
     m.pokes.push((0x3000, c.word)); m.pokes.push((0x3001, 0xF025));
     for (k, w) in c.string_words.iter().enumerate() { m.pokes.push((STR_AT + k as u16, *w)); }
     m.pokes.push((STR_AT + c.string_words.len() as u16, 0x0000));
-    let what = format!("{:?} (real_traps={}) regs#{} cc x{:04X} string {:x?} keyboard {:x?}", c.trap, c.real, c.regset, CCS[c.cc], c.string_words, c.kb);
+    let what = format!("{:?} (real_traps={} ignore_privilege={}) regs#{} cc x{:04X} string {:x?} keyboard {:x?}", c.trap, c.real, c.ignore_priv, c.regset, CCS[c.cc], c.string_words, c.kb);
     let mut p = build(&m);
     let regs0: Vec<u16> = (0..8).map(|i| p.sim.reg_file[reg(i)].get()).collect();
     let mem0: Vec<u16> = (0x3000..0xFE00u16).map(|a| p.sim.mem[a].get()).collect();
@@ -75,37 +75,38 @@ fn cases(ctx: &Ctx) -> Vec<Case> {
     let mut v = vec![];
     let prompt = os_string("S_IN_PROMPT");
     let kq = seq_count(3, 3);
-    for real in [false, true] { for regset in 0..3 { for cc in 0..3 {
+    for (real, ignore_priv) in [(false, false), (true, false), (false, true), (true, true)] { for regset in 0..3 { for cc in 0..3 {
+        if ignore_priv && regset != 0 && cc != 1 { continue; }
         // GETC / IN: every non-empty queue of length <=3
         for qi in 1..kq { let kb = seq(&KB_SYM, qi);
-            v.push(Case { trap: Trap::Getc, word: 0xF020, r0_low: 0, string_words: vec![], expected_out: vec![], kb: kb.clone(), regset, cc, real });
+            v.push(Case { trap: Trap::Getc, word: 0xF020, r0_low: 0, string_words: vec![], expected_out: vec![], kb: kb.clone(), regset, cc, real, ignore_priv });
             let mut out = prompt.clone(); out.push(kb[0]);
-            v.push(Case { trap: Trap::In, word: 0xF023, r0_low: 0, string_words: vec![], expected_out: out, kb, regset, cc, real });
+            v.push(Case { trap: Trap::In, word: 0xF023, r0_low: 0, string_words: vec![], expected_out: out, kb, regset, cc, real, ignore_priv });
         }
         // OUT / PUTC: every low byte of a boundary set, with queued input that must stay untouched
         for b in [0x00u8, 0x01, 0x41, 0x7F, 0x80, 0xFF] { for kb in [vec![], vec![0x41u8, 0xFF]] {
-            v.push(Case { trap: Trap::Out, word: 0xF021, r0_low: b, string_words: vec![], expected_out: vec![b], kb, regset, cc, real });
+            v.push(Case { trap: Trap::Out, word: 0xF021, r0_low: b, string_words: vec![], expected_out: vec![b], kb, regset, cc, real, ignore_priv });
         } }
         // PUTS: every string of <=3 (thorough 4) symbols
         for si in 0..seq_count(5, ctx.pick(3, 4)) { let s = seq(&PUTS_SYM, si);
-            v.push(Case { trap: Trap::Puts, word: 0xF022, r0_low: 0, expected_out: s.iter().map(|w| *w as u8).collect(), string_words: s, kb: vec![0x41], regset, cc, real });
+            v.push(Case { trap: Trap::Puts, word: 0xF022, r0_low: 0, expected_out: s.iter().map(|w| *w as u8).collect(), string_words: s, kb: vec![0x41], regset, cc, real, ignore_priv });
         }
         // PUTSP: every byte string of <=4 (thorough 5) symbols, packed low byte first
         for si in 0..seq_count(4, ctx.pick(4, 5)) { let b = seq(&PUTSP_SYM, si);
             let words: Vec<u16> = b.chunks(2).map(|c| c[0] as u16 | (c.get(1).copied().unwrap_or(0) as u16) << 8).collect();
-            v.push(Case { trap: Trap::Putsp, word: 0xF024, r0_low: 0, expected_out: b.clone(), string_words: words, kb: vec![], regset, cc, real });
+            v.push(Case { trap: Trap::Putsp, word: 0xF024, r0_low: 0, expected_out: b.clone(), string_words: words, kb: vec![], regset, cc, real, ignore_priv });
         }
         // PUTSP with a zero byte inside a word (high byte zero ends the string; low byte zero ends it before the high byte)
         for w in [0x0041u16, 0x4100, 0x0000] { let exp: Vec<u8> = if w & 0xFF == 0 { vec![] } else { vec![w as u8] };
-            v.push(Case { trap: Trap::Putsp, word: 0xF024, r0_low: 0, expected_out: exp, string_words: vec![w, 0x4242], kb: vec![], regset, cc, real });
+            v.push(Case { trap: Trap::Putsp, word: 0xF024, r0_low: 0, expected_out: exp, string_words: vec![w, 0x4242], kb: vec![], regset, cc, real, ignore_priv });
         }
-        v.push(Case { trap: Trap::Halt, word: 0xF025, r0_low: 0, string_words: vec![], expected_out: vec![], kb: vec![0x41], regset, cc, real });
+        v.push(Case { trap: Trap::Halt, word: 0xF025, r0_low: 0, string_words: vec![], expected_out: vec![], kb: vec![0x41], regset, cc, real, ignore_priv });
     } } }
     v
 }
 
 pub fn run(ctx: &Ctx) -> Report {
-    let mut rep = Report::new("each of GETC, OUT/PUTC, PUTS, IN, PUTSP, HALT called from user code at x3000 under virtual and real traps x 3 register presets x 3 condition codes; GETC/IN: every keyboard queue of length 1-3 over {x00,x41,xFF}; OUT: 6 boundary bytes with and without queued input; PUTS: every string of <=3 (thorough 4) words over {x0041,x00FF,x0001,x0180,x4100}; PUTSP: every byte string of <=4 (thorough 5) over {x01,x41,x80,xFF} packed (odd and even lengths) plus zero-byte-inside-word cases. Oracle: display bytes, R0, input consumed, every other register, PSR (CC, privilege, priority) and all of user memory x3000-xFDFF; HALT stops; the IN prompt is read from the OS image's symbol table. non-trivial = every case");
+    let mut rep = Report::new("each of GETC, OUT/PUTC, PUTS, IN, PUTSP, HALT called from user code at x3000 under virtual and real traps, with and without ignore_privilege (the caller stays in user mode) x 3 register presets x 3 condition codes; GETC/IN: every keyboard queue of length 1-3 over {x00,x41,xFF}; OUT: 6 boundary bytes with and without queued input; PUTS: every string of <=3 (thorough 4) words over {x0041,x00FF,x0001,x0180,x4100}; PUTSP: every byte string of <=4 (thorough 5) over {x01,x41,x80,xFF} packed (odd and even lengths) plus zero-byte-inside-word cases. Oracle: display bytes, R0, input consumed, every other register, PSR (CC, privilege, priority) and all of user memory x3000-xFDFF; HALT stops; the IN prompt is read from the OS image's symbol table. non-trivial = every case");
     let cs = cases(ctx);
     let r = sweep(ctx, cs.len() as u64, 4, |i, acc| {
         let c = &cs[i as usize];
